@@ -25,9 +25,21 @@ from .types import (
 _current = count()
 
 
-def generate_checking_code(typ):
+def generate_checking_code(typ, argtype=None):
+    """Generate code that checks whether {arg} is an instance of typ.
+
+    If argtype is given, the code is only ever run on arguments of exactly
+    that type (dispatchers are generated per tuple of argument types), so
+    everything that only depends on the type is decided right now.
+    """
+    from .types import MetaMC
+
     if hasattr(typ, "codegen"):
+        if argtype is not None and isinstance(typ, MetaMC):
+            return typ.codegen(argtype)
         return typ.codegen()
+    elif argtype is not None:
+        return CodeGen("True" if subclasscheck(argtype, typ) else "False")
     elif hasattr(typ, "__origin__"):
         # isinstance() does not accept parametrized generics such as type[X]
         return CodeGen(
@@ -40,14 +52,19 @@ def generate_checking_code(typ):
         return CodeGen("isinstance({arg}, {this})", this=typ)
 
 
-def generate_guarded_checking_code(typ):
+def generate_guarded_checking_code(typ, argtype=None):
     """Checking code for a type that appears inside a Union or Intersection.
 
     A dependent type's own code assumes its bound was already checked, which is
     not the case for a member of a combination.
     """
-    cg = generate_checking_code(typ)
+    cg = generate_checking_code(typ, argtype)
     if isinstance(typ, DependentType) and typ.bound is not object:
+        if argtype is not None:
+            if subclasscheck(argtype, typ.bound):
+                return cg
+            else:
+                return CodeGen("False")
         guard = generate_checking_code(typ.bound)
         return combine("(({}) and ({}))", [guard, cg])
     return cg
